@@ -73,8 +73,8 @@ func execBrd(o *Out, id, line string) {
 		return
 	}
 	if kv["cap"] != "" {
-		// the excluded point of the size cap of C02_refines_spec (probe_cap.go): 2^24+1 insert-and-copy
-		// commands in a meta-block with one block type; the 58.7 MB input is generated on the fly
+		// regression of finding D14 (probe_cap.go): 2^24+1 insert-and-copy commands in a meta-block with one
+		// block type; the 58.7 MB input is generated on the fly
 		var dn, ln int64
 		var derr, lerr error
 		if !withWatchdog(timeSec(120), func() {
@@ -87,7 +87,7 @@ func execBrd(o *Out, id, line string) {
 		o.Count("cap-probe")
 		o.Emit(id, line, "", "", "cap")
 		if derr == nil && lerr != nil {
-			o.Violate("C02", fmt.Sprintf("a meta-block with one insert-and-copy block type and 2^24+1 commands (58,767,642 bytes, recipe probe_cap.go): brotli.Reader succeeds with %d bytes, libbrotlidec does not report a complete stream (%d bytes, %v): the implicit block count 16777216 of a single-type category is never enforced (typeLen = -1)", dn, ln, lerr), "single-type-block-count-exhausted", line)
+			o.Violate("C02", fmt.Sprintf("a meta-block with one insert-and-copy block type and 2^24+1 commands (58,767,642 bytes, recipe probe_cap.go): brotli.Reader succeeds with %d bytes, libbrotlidec does not report a complete stream (%d bytes, %v): the implicit block count 16777216 of a single-type category is not enforced (finding D14)", dn, ln, lerr), "single-type-block-count-exhausted", line)
 		} else if (derr == nil) != (lerr == nil) || dn != ln && derr == nil {
 			o.Violate("C02", fmt.Sprintf("single-type block count probe: dsnet %d bytes err=%v, libbrotlidec %d bytes err=%v", dn, derr, ln, lerr), "cap-probe-other", line)
 		}
@@ -381,7 +381,7 @@ func genBrd(r *Rand, tier string, emit func(string)) {
 		}
 		e(b)
 	}
-	// the excluded point of the size cap of C02_refines_spec, on the real code (one scenario, ~7 s)
+	// regression of finding D14 on the real code (one scenario, a few seconds)
 	emit("brd cap=single-type-block-count")
 	_ = strconv.Itoa
 }
